@@ -83,6 +83,8 @@ impl Clients {
         // connection registered.
         let entry = self.0.clients.entry(endpoint_id);
         let client = Client::new(client_config, self, metrics.clone());
+        #[cfg(feature = "verif-hooks")]
+        crate::verif_hooks::sched::pause_sync("relay.register.after_spawn");
         match entry {
             dashmap::Entry::Occupied(mut entry) => {
                 let state = entry.get_mut();
@@ -244,6 +246,36 @@ impl Clients {
             .clients
             .get(&endpoint_id)
             .map(|s| s.active.connection_id())
+    }
+}
+
+#[cfg(feature = "verif-hooks")]
+impl Clients {
+    /// Read-only copy of the registry for the verification harness:
+    /// `(endpoint, active, inactive)` per entry and the `sent_to` map.
+    #[allow(clippy::type_complexity)]
+    pub(crate) fn verif_snapshot(
+        &self,
+    ) -> (
+        Vec<(EndpointId, ConnectionId, Vec<ConnectionId>)>,
+        Vec<(EndpointId, Vec<EndpointId>)>,
+    ) {
+        let reg = self
+            .0
+            .clients
+            .iter()
+            .map(|e| {
+                let inactive = e.inactive.iter().map(|c| c.connection_id()).collect();
+                (*e.key(), e.active.connection_id(), inactive)
+            })
+            .collect();
+        let sent = self
+            .0
+            .sent_to
+            .iter()
+            .map(|e| (*e.key(), e.value().iter().copied().collect()))
+            .collect();
+        (reg, sent)
     }
 }
 
